@@ -158,6 +158,16 @@ func (w *World) structSort(t types.Type) *StructSort {
 	for i := range s.Fields {
 		s.Fields[i].Sort = w.sortOf(s.Fields[i].Type)
 	}
+	for i := range s.Fields {
+		accessorOf[s.acc(i)] = struct {
+			ctor string
+			idx  int
+		}{s.ctor(), i}
+	}
+	accessorOf["un_"+s.Name] = struct {
+		ctor string
+		idx  int
+	}{"box_" + s.Name, 0}
 	return s
 }
 
